@@ -250,9 +250,29 @@ func call(f func()) (lp *LibPanic) {
 func (r *Run) Lib(f func()) {
 	r.Steps++
 	if lp := call(f); lp != nil {
+		if panicIsViolation[r.Prop] && lp.Frame != "?" {
+			// these properties promise a result (a message that verifies, bytes,
+			// an error value) for the calls their worlds make; a panic is none
+			r.Check()
+			r.Fail("library-panic/"+lp.Class+"/"+lp.Frame, "a call made by the %s world panicked inside go-cose: %v (in %s)\nlast operations:\n  %s", r.Prop, lp.Value, lp.Frame, strings.Join(lastN(r.trace, 6), "\n  "))
+		}
 		r.Probe("lib-panic-abandoned")
 		r.Skip("library panic: " + lp.Class + " in " + lp.Frame)
 	}
+}
+
+// panicIsViolation lists the properties whose statement promises an outcome
+// for every call their world makes (round trips succeed, conforming messages
+// are accepted, encoders return bytes, failures come back as error values).
+// In the other worlds (damaged inputs, hostile seams) a panic is C06's
+// business: the run is abandoned and counted.
+var panicIsViolation = map[string]bool{"C01": true, "C07": true, "C08": true, "C09": true, "C10": true, "C12": true, "C14": true, "C20": true}
+
+func lastN(s []string, n int) []string {
+	if len(s) > n {
+		return s[len(s)-n:]
+	}
+	return s
 }
 
 // errTag is what the event log records of an error: whether there was one.
